@@ -46,6 +46,15 @@ def rules(P, R, prefix="C10"):
             ok, why = monotone_write(env, f, n, k, "round")
             R.judge(ok, prefix + ".P1", key(f, "write of Core.round is monotone" + tag, i), n["sp"], why,
                     "the round can decrease: " + why)
+            # "it enters round r+1 only after holding a QC or TC for round r": the new round is exactly evidence round + 1
+            ctx = env.ctx(f)
+            vt = ctx.term(n["r"]) if k == "assign" else ir.pp(n)
+            ps = [p for p in f.params if p["k"] == "pbind" and p["name"] != "self"]
+            ev = ctx.var_term(ps[0]["id"], ps[0]["name"]) if ps else "?"
+            want = "(%s+%s)" % tuple(sorted(["1", ev]))
+            R.judge(k == "assign" and vt == want, prefix + ".P1", key(f, "new round = evidence round + 1" + tag, i), n["sp"], vt,
+                    "the round is set to `%s`, not to (round of the certificate) + 1: the node would enter a round without holding a "
+                    "certificate of the round before it" % vt)
             if f not in wf:
                 wf.append(f)
         R.judge(len(wf) == 1, prefix + ".P1", "single writer of Core.round" + tag, "", str([f.path for f in wf]),
